@@ -96,6 +96,10 @@ type c18Pool struct {
 	pals     []*[64]color.RGBA
 	progs    [][]world.Op
 	cregs    *[64]color.RGBA
+	// option values built once per case and shared by every task that decodes
+	// with options (an application keeps such values around and reuses them)
+	opts     []decode.DecodeOption
+	optsDesc string
 }
 
 type c18Task struct {
@@ -188,6 +192,20 @@ func c18BuildPool(ctx *Ctx, t *tape.Tape) *c18Pool {
 	}
 	p.cregs = world.GenPalette(t)
 	p.cregs[t.Intn(64)] = color.RGBA{uint8(t.Intn(256)), uint8(t.Intn(256)), uint8(t.Intn(256)), 0}
+	idx := t.Intn(64)
+	var col color.Color
+	switch t.Intn(4) {
+	case 0:
+		col = color.RGBA{uint8(t.Intn(256)), uint8(t.Intn(256)), uint8(t.Intn(256)), 0xff}
+	case 1:
+		col = color.NRGBA{uint8(t.Intn(256)), uint8(t.Intn(256)), uint8(t.Intn(256)), uint8(t.Intn(256))}
+	case 2:
+		col = color.Gray{uint8(t.Intn(256))}
+	default:
+		col = color.RGBA64{uint16(t.Intn(65536)), uint16(t.Intn(65536)), uint16(t.Intn(65536)), 0xffff}
+	}
+	p.opts = []decode.DecodeOption{decode.WithPalette(*p.pals[0]), decode.WithColorAt(idx, col)}
+	p.optsDesc = fmt.Sprintf("shared options: WithPalette(pal#0), WithColorAt(%d, %T%v)", idx, col, col)
 	return p
 }
 
@@ -285,12 +303,13 @@ func c18MakeTask(t *tape.Tape, p *c18Pool) c18Task {
 			return fmt.Sprintf("err=%s %v", errText(err), vb)
 		}}
 	case 5:
-		pal := p.pals[t.Intn(len(p.pals))]
-		idx := t.Intn(64)
-		col := color.NRGBA{uint8(t.Intn(256)), uint8(t.Intn(256)), uint8(t.Intn(256)), uint8(t.Intn(256))}
-		return c18Task{"decode with WithPalette/WithColorAt -> recorder" + suffix, func() string {
+		opts := p.opts
+		if t.Chance(1, 3) {
+			opts = opts[1:]
+		}
+		return c18Task{"decode with the shared option values -> recorder" + suffix, func() string {
 			rd := &world.RecDest{}
-			err := decode.Decode(wrap(rd), src, decode.WithPalette(*pal), decode.WithColorAt(idx, col))
+			err := decode.Decode(wrap(rd), src, opts...)
 			return digestCalls(rd.Calls, err)
 		}}
 	case 6:
@@ -403,7 +422,167 @@ func c18MakeTask(t *tape.Tape, p *c18Pool) c18Task {
 
 var c18Once sync.Once
 
+// raceLogSize returns the size of this process's race-detector log (the
+// parent sets GORACE=log_path=<prefix>, the runtime appends .<pid>).
+func raceLogPath() string {
+	if p := os.Getenv("IVGSIM_RACE_LOG"); p != "" {
+		return fmt.Sprintf("%s.%d", p, os.Getpid())
+	}
+	return ""
+}
+
+func raceLogSize() int64 {
+	if p := raceLogPath(); p != "" {
+		if fi, err := os.Stat(p); err == nil {
+			return fi.Size()
+		}
+	}
+	return 0
+}
+
+// raceReport extracts the first report written after offset from.
+func raceReport(from int64) (summary string, lines []string) {
+	p := raceLogPath()
+	b, err := os.ReadFile(p)
+	if err != nil || int64(len(b)) <= from {
+		return "", nil
+	}
+	text := string(b[from:])
+	if i := strings.Index(text, "WARNING: DATA RACE"); i >= 0 {
+		text = text[i:]
+	}
+	if i := strings.Index(text, "=================="); i >= 0 {
+		text = text[:i]
+	}
+	var tops []string
+	all := strings.Split(text, "\n")
+	for i, l := range all {
+		l = strings.TrimSpace(l)
+		if l == "" {
+			continue
+		}
+		if len(lines) < 28 {
+			lines = append(lines, l)
+		}
+		if (strings.HasPrefix(l, "Read at") || strings.HasPrefix(l, "Write at") || strings.HasPrefix(l, "Previous")) && i+1 < len(all) {
+			what := strings.Fields(l)
+			kind := what[0]
+			if kind == "Previous" && len(what) > 1 {
+				kind = "previous " + what[1]
+			}
+			fn := strings.TrimSpace(all[i+1])
+			// skip runtime-internal frames (memmove etc.) to the first library/harness frame
+			for j := i + 1; j < len(all) && j < i+12; j += 2 {
+				f := strings.TrimSpace(all[j])
+				if f == "" {
+					break
+				}
+				if !strings.HasPrefix(f, "runtime.") {
+					fn = f
+					break
+				}
+			}
+			tops = append(tops, strings.ToLower(kind)+" in "+fn)
+		}
+	}
+	return strings.Join(tops, " / "), lines
+}
+
+// c18RunRace is the race arm: the same tasks over the same shared inputs,
+// scheduled by the same tape-driven deciders, but with the baton handed over
+// invisibly (sched.RunInvisible) in a binary built with -race. The scheduled
+// phase comes first in the case — before any solo run could complete a
+// one-time initialisation or warm a shared option value.
+func c18RunRace(ctx *Ctx, t *tape.Tape) *report.Violation {
+	if !raceEnabled || c18Install == nil {
+		return &report.Violation{Property: "C18", Invariant: "C18.not-race-build", Message: "this case belongs to the race arm and needs the binary built with -race against the instrumented copy"}
+	}
+	c18Once.Do(func() {
+		runtime.GOMAXPROCS(1)
+		debug.SetGCPercent(-1)
+	})
+	runtime.GC()
+	runtime.GC()
+	st := ctx.Stats
+	pool := c18BuildPool(ctx, t)
+	k := t.Range(2, 5)
+	tasks := make([]c18Task, k)
+	for i := range tasks {
+		tasks[i] = c18MakeTask(t, pool)
+	}
+	var dec sched.Decider
+	policy := ""
+	// the step counts are not known before the first run: change points are
+	// drawn over a nominal 6000 steps per task
+	total := 6000 * k
+	if t.Chance(1, 2) {
+		d := t.Range(0, 8)
+		pct := &sched.PCT{Prio: make([]int, k)}
+		pts := make([]int, d)
+		for i := range pts {
+			pts[i] = 1 + t.Intn(total+1)
+		}
+		sort.Ints(pts)
+		pct.Points = pts
+		for i := 0; i < d; i++ {
+			pct.Targets = append(pct.Targets, t.Intn(k))
+		}
+		for i := range pct.Prio {
+			pct.Prio[i] = i
+		}
+		for i := k - 1; i > 0; i-- {
+			j := t.Intn(i + 1)
+			pct.Prio[i], pct.Prio[j] = pct.Prio[j], pct.Prio[i]
+		}
+		pct.Reset()
+		dec, policy = pct, fmt.Sprintf("PCT: change points at steps %v -> tasks %v", pts, pct.Targets)
+	} else {
+		den := []int{50, 300, 2000}[t.Intn(3)]
+		r := t.Sub()
+		dec, policy = &sched.Chaos{Den: den, Rand: r.Next}, fmt.Sprintf("chaos: preempt with probability 1/%d at every statement", den)
+	}
+	results := make([]string, k)
+	fns := make([]func(), k)
+	for i := range tasks {
+		i := i
+		fns[i] = func() { results[i] = tasks[i].run() }
+	}
+	before := raceLogSize()
+	ctx.Beat()
+	stt := sched.RunInvisible(fns, dec, c18Install, 4000000)
+	ctx.Beat()
+	ctx.Fold(fnvAdd(stt.Hash, uint64(stt.Steps)))
+	if raceLogSize() > before {
+		summary, lines := raceReport(before)
+		v := viol("C18", "data-race", "the race detector, watching a tape-scheduled interleaving in which it cannot see the hand-overs, reports conflicting unsynchronised accesses by two pipelines: %s", summary)
+		for i, f := range pool.fileDesc {
+			v.Trace = append(v.Trace, fmt.Sprintf("shared file#%d (%d bytes): %s", i, len(pool.files[i]), f))
+		}
+		v.Trace = append(v.Trace, pool.optsDesc)
+		for i, tk := range tasks {
+			v.Trace = append(v.Trace, fmt.Sprintf("task %d: %s", i, tk.name))
+		}
+		v.Trace = append(v.Trace, "policy: "+policy, fmt.Sprintf("%d statement steps, %d preemptions", stt.Steps, len(stt.Switches)))
+		v.Trace = append(v.Trace, lines...)
+		v.Signature = v.Invariant
+		return v
+	}
+	if st != nil {
+		st.Add("evaluations", 1)
+		st.Add("race_arm_runs", 1)
+		st.Add("race_arm_statement_steps", int64(stt.Steps))
+		st.Add("race_arm_preemptions", int64(len(stt.Switches)))
+		if stt.Overlaps > 0 {
+			st.Distinct(fnvAdd(stt.Hash, 99))
+		}
+	}
+	return nil
+}
+
 func c18Run(ctx *Ctx, t *tape.Tape) *report.Violation {
+	if t.Intn(2) == 1 {
+		return c18RunRace(ctx, t)
+	}
 	if c18Install == nil {
 		return &report.Violation{Property: "C18", Invariant: "C18.not-instrumented", Message: "this binary was not built against the instrumented copy"}
 	}
@@ -431,6 +610,7 @@ func c18Run(ctx *Ctx, t *tape.Tape) *report.Violation {
 		for i, f := range pool.fileDesc {
 			out = append(out, fmt.Sprintf("shared file#%d (%d bytes): %s", i, len(pool.files[i]), f))
 		}
+		out = append(out, pool.optsDesc)
 		for i, tk := range tasks {
 			out = append(out, fmt.Sprintf("task %d: %s", i, tk.name))
 		}
@@ -651,6 +831,14 @@ func c18Run(ctx *Ctx, t *tape.Tape) *report.Violation {
 	return nil
 }
 
+// c18Counts: cases of the normal arm and of the race arm.
+func c18Counts(tier string) (normal, race int) {
+	if tier == "thorough" {
+		return 4000000, 400000
+	}
+	return 120000, 12000
+}
+
 func init() {
 	register(&Property{
 		ID:                 "C18",
@@ -659,10 +847,18 @@ func init() {
 		NeedsSched:         true,
 		FreshProcessReplay: true,
 		Cases: func(ctx *Ctx) int {
-			if ctx.Tier == "thorough" {
-				return 4000000
+			a, b := c18Counts(ctx.Tier)
+			return a + b
+		},
+		RaceFrom: func(ctx *Ctx) int {
+			a, _ := c18Counts(ctx.Tier)
+			return a
+		},
+		Prefix: func(ctx *Ctx, i int) []uint64 {
+			if a, _ := c18Counts(ctx.Tier); i >= a {
+				return []uint64{1}
 			}
-			return 150000
+			return []uint64{0}
 		},
 		Run: c18Run,
 		Describe: func(tier string, s *report.Stats, cases int) Evidence {
